@@ -399,19 +399,13 @@ func (b *BlockList) Exists(key string) bool {
 	// "example.com." then "com." against both maps: a bare domain in
 	// b.m covers all its subdomains, and a "*.domain" entry in b.wild
 	// covers subdomains only.
-	offset := 0
-	for {
-		idx := strings.IndexByte(key[offset:], '.')
-		if idx == -1 {
-			break
-		}
-		offset += idx + 1 // Move past the dot
-
-		if offset < len(key) {
-			suffix := key[offset:]
-			if b.m[suffix] || b.wild[suffix] {
-				return true
-			}
+	// Parents are found at label boundaries: dns.NextLabel skips a dot
+	// that is escaped inside a label ("a\.b.example.com." is a child
+	// of "example.com.", not of "b.example.com.").
+	for offset, end := dns.NextLabel(key, 0); !end; offset, end = dns.NextLabel(key, offset) {
+		suffix := key[offset:]
+		if b.m[suffix] || b.wild[suffix] {
+			return true
 		}
 	}
 
@@ -427,17 +421,12 @@ func matchHierarchy(name string, m map[string]bool) bool {
 	if m[name] {
 		return true
 	}
-	offset := 0
-	for {
-		idx := strings.IndexByte(name[offset:], '.')
-		if idx == -1 {
-			return false
-		}
-		offset += idx + 1
-		if offset < len(name) && m[name[offset:]] {
+	for offset, end := dns.NextLabel(name, 0); !end; offset, end = dns.NextLabel(name, offset) {
+		if m[name[offset:]] {
 			return true
 		}
 	}
+	return false
 }
 
 // (*BlockList).Length length returns the caches length.
